@@ -5,6 +5,7 @@ import (
 	"go/ast"
 	"go/token"
 	"go/types"
+	"golang.org/x/tools/go/packages"
 	"os"
 	"runtime"
 	"sort"
@@ -40,6 +41,10 @@ type mutOp struct {
 	Name string
 	Doc  string
 	Gen  func(m *model.Model, scope map[string]bool) []mutant
+	// Exploratory operators generate every syntactic mutant of a kind (statement swap, statement deletion, condition
+	// negation). Many of those are equivalent or change values only, so a survivor is not a defect of the checker;
+	// what is checked is that the share of mutants this property's rules report does not fall below the recorded floor.
+	Exploratory bool
 }
 
 func offset(m *model.Model, pos token.Pos) int { return m.Prog.Fset.Position(pos).Offset }
@@ -489,12 +494,14 @@ func genDropLocks(m *model.Model, scope map[string]bool, class string) []mutant 
 // --- runner -----------------------------------------------------------------------------
 
 type sweepResult struct {
-	Op        string   `json:"operator"`
-	Generated int      `json:"generated"`
-	Compiled  int      `json:"compiled"`
-	Killed    int      `json:"killed"`
-	Survived  []string `json:"survived,omitempty"`
-	NoCompile []string `json:"not_compilable,omitempty"`
+	Op          string   `json:"operator"`
+	Exploratory bool     `json:"exploratory,omitempty"`
+	Generated   int      `json:"generated"`
+	Compiled    int      `json:"compiled"`
+	Killed      int      `json:"killed"`
+	Floor       int      `json:"reported_floor,omitempty"`
+	Survived    []string `json:"survived,omitempty"`
+	NoCompile   []string `json:"not_compilable,omitempty"`
 }
 
 func applyEdits(src []byte, eds []edit) ([]byte, bool) {
@@ -541,7 +548,7 @@ func sweep(p *check.Property, ops []mutOp) func(out *check.Outcome, m *model.Mod
 		budget := 25 * time.Minute
 		for _, op := range ops {
 			muts := op.Gen(m, scope)
-			res := sweepResult{Op: op.Name, Generated: len(muts)}
+			res := sweepResult{Op: op.Name, Generated: len(muts), Exploratory: op.Exploratory}
 			// batches: no two mutants of one group, no two overlapping edits in one file
 			remaining := muts
 			for len(remaining) > 0 && time.Since(t0) < budget {
@@ -586,6 +593,20 @@ func sweep(p *check.Property, ops []mutOp) func(out *check.Outcome, m *model.Mod
 					}
 				}
 				run(batch)
+			}
+			if op.Exploratory {
+				res.Floor = exploreFloors[p.ID+"/"+op.Name]
+				nSurv := len(res.Survived)
+				if nSurv > 40 {
+					res.Survived = append(res.Survived[:40], fmt.Sprintf("... and %d more", nSurv-40))
+				}
+				results = append(results, res)
+				out.Notes = append(out.Notes, fmt.Sprintf("exploratory operator %s: %d generated, %d compiled, %d reported by this property's rules (floor %d), %d not reported (equivalent, value-level or outside this property)", op.Name, res.Generated, res.Compiled, res.Killed, res.Floor, nSurv))
+				if res.Killed < res.Floor {
+					out.Broken = append(out.Broken, fmt.Sprintf("mutation sweep: operator %s: only %d mutants reported, the recorded floor is %d: a rule of this property stopped reporting mutants it used to report", op.Name, res.Killed, res.Floor))
+				}
+				out.Extra["explore_"+op.Name+"_reported"] = res.Killed
+				continue
 			}
 			total += res.Generated
 			killed += res.Killed
@@ -942,6 +963,52 @@ var mutIgnoreLimit = mutOp{Name: "ignore-limit", Doc: "replace the !rate.Reached
 					Desc: fmt.Sprintf("%s: limit test replaced by true", sc)})
 				return true
 			})
+		}
+		return out
+	}}
+
+// --- exploratory operators ---------------------------------------------------------------
+
+// exploreFloors: mutants reported today by each property's own rules (property/operator), minus a margin of 10 %
+// for unrelated edits of the repository. Recomputed with `rocheck -prop <id> -tier thorough` (see the notes it prints).
+var exploreFloors = map[string]int{}
+
+func scopedPkgs(m *model.Model, scope map[string]bool) []*packages.Package {
+	var out []*packages.Package
+	for _, p := range m.Pkgs {
+		if scope[p.PkgPath] {
+			out = append(out, p)
+		}
+	}
+	return out
+}
+
+var mutSwapStmts = mutOp{Name: "swap-statements", Exploratory: true, Doc: "swap two adjacent simple statements",
+	Gen: func(m *model.Model, scope map[string]bool) []mutant {
+		var out []mutant
+		for _, p := range scopedPkgs(m, scope) {
+			out = append(out, genSwapsPkg(m, p, "")...)
+		}
+		return out
+	}}
+
+var mutDeleteStmt = mutOp{Name: "delete-statement", Exploratory: true, Doc: "delete a call statement, a defer or an increment",
+	Gen: func(m *model.Model, scope map[string]bool) []mutant {
+		var out []mutant
+		for _, p := range scopedPkgs(m, scope) {
+			out = append(out, genDeletesPkg(m, p, "")...)
+		}
+		return out
+	}}
+
+var mutNegateCond = mutOp{Name: "negate-condition", Exploratory: true, Doc: "negate the condition of an if statement",
+	Gen: func(m *model.Model, scope map[string]bool) []mutant {
+		saved := explorePkgFilter
+		defer func() { explorePkgFilter = saved }()
+		var out []mutant
+		for _, p := range scopedPkgs(m, scope) {
+			explorePkgFilter = p.PkgPath
+			out = append(out, genNegates(m, "")...)
 		}
 		return out
 	}}
